@@ -49,7 +49,7 @@ def replay(ctx, path):
     import json
     vlib.build_harness(ctx, bins=("vh", "vht"))
     evs = [json.loads(l) for l in open(path) if l.strip()]
-    keep = {"e", "T", "fallback", "role", "outcome", "drop"}
+    keep = {"e", "T", "fallback", "role", "outcome", "drop", "ms"}
     with open(ctx.path("in.jsonl"), "w") as f:
         f.write(json.dumps([{k: v for k, v in e.items() if k in keep} for e in evs]) + "\n")
     vlib.vh(ctx, ["replay", "--in", ctx.path("in.jsonl"), "--out", ctx.path("re.ndjson")], binary=VHT)
